@@ -1,4 +1,4 @@
-import Midgard.Core.Proto
+import Driver.Loop
 import Midgard.Model.TimeArith
 
 namespace Driver.C03
@@ -21,16 +21,16 @@ def parseOp? : String → Option Op
 def showJD (j : JD) : String := s!"{showRat j.jd1} {showRat j.jd2}"
 
 def handle : List String → Option String
-  | ["tojds", f, v, v2] => do
+  | ["c03", "tojds", f, v, v2] => do
     let f ← parseFmt? f; let v ← parseRat? v; let v2 ← parseRat? v2
     pure (showJD (f.toJds v v2))
-  | ["fromjds", f, a, b] => do
+  | ["c03", "fromjds", f, a, b] => do
     let f ← parseFmt? f; let a ← parseRat? a; let b ← parseRat? b
     pure (showRat (f.fromJds ⟨a, b⟩))
-  | ["neg", f, v, v2] => do
+  | ["c03", "neg", f, v, v2] => do
     let f ← parseFmt? f; let v ← parseRat? v; let v2 ← parseRat? v2
     pure (showJD (dNeg f v v2))
-  | ["binop", op, ka, sa, a1, a2, kb, sb, b1, b2] => do
+  | ["c03", "binop", op, ka, sa, a1, a2, kb, sb, b1, b2] => do
     let op ← parseOp? op
     let ka ← parseKind? ka; let sa ← parseScale? sa
     let a1 ← parseRat? a1; let a2 ← parseRat? a2
@@ -43,3 +43,5 @@ def handle : List String → Option String
   | _ => none
 
 end Driver.C03
+
+def main : IO Unit := Driver.run Driver.C03.handle
